@@ -326,6 +326,18 @@ def greedy_action(agent, obs):
     raise ValueError(name)
 
 
+def train_action(agent, obs):
+    """get_action the way a training loop calls it (exploration on)."""
+    name = algo_name(agent)
+    if name in ("DQN", "CQN"):
+        return agent.get_action(obs, epsilon=0.3)
+    if name == "RainbowDQN":
+        return agent.get_action(obs, training=True)
+    if name in ("DDPG", "TD3", "MADDPG", "MATD3"):
+        return agent.get_action(obs, training=True)
+    return agent.get_action(obs)
+
+
 def probe_obs(agent, n: int = 5, seed: int = 123):
     a = unwrap(agent)
     rng = np.random.default_rng(seed)
